@@ -57,6 +57,7 @@ type upCase struct {
 	Visible    [][]int   `json:"visible"`
 	Stored     []int     `json:"stored"`
 	FailedFile int       `json:"failedfile"`
+	Scaled     bool      `json:"scaled"`
 	// ids
 	Steps []struct {
 		U string `json:"u"`
@@ -248,13 +249,24 @@ type upBody struct {
 	content  []int   // offset where the content of file part f begins
 	recEnd   [][]int // recEnd[f][j] = offset just after the j-th record line (j=0: start of content)
 	closing  int     // offset where the closing delimiter begins
+	tailAt   []int   // offsets where the trailing form fields begin
 	nameOf   map[string]bool
 }
 
 // upBuildBody builds the multipart body for a plan. badFile (1-based, 0 = none) gets
 // content without any benchmark line; extraField (1-based position among parts, 0 = none)
 // inserts an unexpected form field before that file part.
+// upBuildBodyTail is upBuildBody followed by the given form fields (name=value) after the
+// last file, e.g. commit=1 then abort=1 as storage.Client sends when Commit fails half way.
+func upBuildBodyTail(files, recs, salt int, tail ...string) *upBody {
+	return upBuildBodyX(files, recs, 0, 0, salt, tail)
+}
+
 func upBuildBody(files, recs, badFile, extraField int, salt int) *upBody {
+	return upBuildBodyX(files, recs, badFile, extraField, salt, nil)
+}
+
+func upBuildBodyX(files, recs, badFile, extraField int, salt int, tail []string) *upBody {
 	var buf bytes.Buffer
 	mw := multipart.NewWriter(&buf)
 	mw.SetBoundary(fmt.Sprintf("verifboundary%dx", salt))
@@ -285,6 +297,13 @@ func upBuildBody(files, recs, badFile, extraField int, salt int) *upBody {
 	if extraField == files+1 {
 		w, _ := mw.CreateFormField("bogus")
 		w.Write([]byte("x"))
+	}
+	b.tailAt = nil
+	for _, f := range tail {
+		kv := strings.SplitN(f, "=", 2)
+		b.tailAt = append(b.tailAt, buf.Len())
+		w, _ := mw.CreateFormField(kv[0])
+		w.Write([]byte(kv[1]))
 	}
 	pre := buf.Len()
 	mw.Close()
@@ -322,7 +341,11 @@ func upReplayFault(c *upCase) Verdict {
 	var vs []upVariant
 	switch c.Fault.Phase {
 	case "none":
-		vs = append(vs, upVariant{"no-fault", nil, whole})
+		vs = append(vs, upVariant{"no-fault", nil, whole},
+			upVariant{"no-fault-with-commit-field", nil, func() (string, io.Reader) {
+				b := upBuildBodyTail(c.Files, c.Recs, salt, "commit=1")
+				return b.ctype, bytes.NewReader(b.data)
+			}})
 		// a body cut after the closing delimiter is complete is not a fault
 	case "open": // before file f is created
 		vs = append(vs,
@@ -366,14 +389,26 @@ func upReplayFault(c *upCase) Verdict {
 			vs = append(vs, upVariant{"content-write-error", func(a *upApp) { a.ffs.failWriteOf, a.ffs.failWriteN = f+1, 7 }, whole})
 		}
 	case "closed-all": // every file stored, nothing committed yet
-		vs = append(vs, upVariant{"unexpected-field-after-last-file", nil, func() (string, io.Reader) {
-			b := upBuildBody(c.Files, c.Recs, 0, c.Files+1, salt)
-			return b.ctype, bytes.NewReader(b.data)
-		}})
+		tailBody := func(tail ...string) func() (string, io.Reader) {
+			return func() (string, io.Reader) {
+				b := upBuildBodyTail(c.Files, c.Recs, salt, tail...)
+				return b.ctype, bytes.NewReader(b.data)
+			}
+		}
+		vs = append(vs,
+			upVariant{"unexpected-field-after-last-file", nil, tailBody("bogus=x")},
+			// the client asked to commit, then gave up (what storage.Client does when Commit fails half way)
+			upVariant{"abort-after-commit-field", nil, tailBody("commit=1", "abort=1")},
+			upVariant{"unexpected-field-after-commit-field", nil, tailBody("commit=1", "bogus=x")},
+			upVariant{"cut-after-commit-field", nil, func() (string, io.Reader) {
+				b := upBuildBodyTail(c.Files, c.Recs, salt, "commit=1")
+				return b.ctype, io.MultiReader(bytes.NewReader(b.data[:b.closing]), upErrReader{io.ErrUnexpectedEOF})
+			}},
+		)
 	default:
 		return fail("badcase", "unknown fault phase %q", c.Fault.Phase)
 	}
-	if thorough() && c.Fault.Phase == "none" {
+	if thorough() && c.Fault.Phase == "none" && !c.Scaled {
 		// every byte offset before the closing delimiter is complete must fail cleanly
 		for n := 0; n < len(full.data)-4; n++ {
 			vs = append(vs, upVariant{fmt.Sprintf("cut-at-%d", n), nil, cut(n)})
@@ -475,6 +510,41 @@ func upRunVariant(c *upCase, v upVariant, useLocal bool, salt int, anyStored boo
 			sig = "earlier-upload-damaged"
 		}
 		return Verdict{OK: false, Signature: sig, Detail: fmt.Sprintf("queryable records %v, want %v", recs, want)}
+	}
+	if ok {
+		// every record must be queryable through every kind of label it carries
+		count := func(q string) (int, error) {
+			qq := a.db.Query(q)
+			defer qq.Close()
+			n := 0
+			for qq.Next() {
+				n++
+			}
+			return n, qq.Err()
+		}
+		type probe struct {
+			q    string
+			want int
+		}
+		probes := []probe{{"upload:" + newID, len(c.Visible)}, {"upload:" + newID + " goos:linux", len(c.Visible)}, {"upload:" + newID + " by:user", len(c.Visible)}}
+		for f := 1; f <= c.Files; f++ {
+			probes = append(probes,
+				probe{fmt.Sprintf("upload-part:%s/%d", newID, f-1), c.Recs},
+				probe{fmt.Sprintf("upload:%s upload-file:f%d.txt", newID, f), c.Recs},
+				probe{fmt.Sprintf("upload:%s name:F%dR%d", newID, f, c.Recs), 1},
+				probe{fmt.Sprintf("upload:%s key%d:v%d rec:r%d", newID, f, salt, c.Recs), 1},
+				probe{fmt.Sprintf("upload:%s name:F%dR1", newID, f), 1},
+			)
+		}
+		for _, p := range probes {
+			n, err := count(p.q)
+			if err != nil {
+				return fail("harness", "query %q: %v", p.q, err)
+			}
+			if n != p.want {
+				return Verdict{OK: false, Signature: "records-not-queryable-by-label", Detail: fmt.Sprintf("query %q returns %d records, want %d (upload of %d files x %d records)", p.q, n, p.want, c.Files, c.Recs)}
+			}
+		}
 	}
 	listed, err := a.listed()
 	if err != nil {
